@@ -214,7 +214,6 @@ func meOK(f *function) bool {
 //@   may-panic true
 //@   modifies nothing
 
-
 // ---- C06 / C07: how a call through the interpreter ends. The deferred function literal of call() is
 // verified on its own, from an arbitrary state and with recover() arbitrary: a call whose module is
 // closed when it ends never reports success.
